@@ -851,9 +851,20 @@ class Interp:
             return obj[lo:hi:step]
         idx = self.ev(n.slice, f)
         if is_bytes_like(obj) and (ops.has_sym(obj) or ops.has_sym(idx)):
+            if f.spec or p.no_branch:
+                # specifications index totally (out-of-range reads are unspecified values, never exceptions)
+                b = as_sbytes(obj)
+                ti = int_term(idx)
+                if isinstance(idx, int) and idx < 0:
+                    ti = b.n + idx
+                elif not isinstance(idx, int) and not p.entails(ti >= 0):
+                    ti = z3.If(ti < 0, ti + b.n, ti)
+                return mk_int(b.at(ti))
             return ops.bytes_index(p, obj, idx)
         if isinstance(obj, SSeq):
             ti = int_term(idx)
+            if f.spec or p.no_branch:
+                return obj.at(ti)
             if p.branch(z3.And(ti >= 0, ti < obj.n), "seqidx"):
                 return obj.at(ti)
             if p.branch(z3.And(ti < 0, ti >= -obj.n), "seqnegidx"):
@@ -962,10 +973,9 @@ class Interp:
         if _is_logger_call(n):
             return None
         # spec-level special forms (need unevaluated arguments)
-        if isinstance(n.func, ast.Name) and n.func.id in ("old", "forall", "exists", "raised") and (
-                f.spec or f.globals.get(n.func.id) in (api.old, api.forall, api.exists, api.raised)):
+        if isinstance(n.func, ast.Name) and n.func.id in ("old", "forall", "exists", "raised", "implies", "ite"):
             target = f.globals.get(n.func.id)
-            if target in (api.old, api.forall, api.exists, api.raised):
+            if target in (api.old, api.forall, api.exists, api.raised, api.implies, api.ite) and n.func.id not in f.locals:
                 return self._spec_form(n, f)
         if isinstance(n.func, ast.Name) and n.func.id == "super" and not n.args:
             fn: Any = SuperProxy(self, f)
@@ -995,8 +1005,33 @@ class Interp:
         if name == "raised":
             cls = self.ev(n.args[0], f)
             return f.exc is not None and issubclass(f.exc.cls, cls)
-        lo = self.ev(n.args[0], f)
-        hi = self.ev(n.args[1], f)
+        if name == "implies":
+            a = ops.truth_term(p, self.ev(n.args[0], f))
+            if a is False:
+                return True
+            if a is not True and not p.feasible(a):
+                return True  # antecedent impossible here: consequent need not even be well-typed
+            b = ops.truth_term(p, self.ev(n.args[1], f))
+            if a is True:
+                return b if isinstance(b, bool) else mk_bool(b)
+            if b is True:
+                return True
+            if b is False:
+                return mk_bool(z3.Not(a))
+            return mk_bool(z3.Implies(a, b))
+        if name == "ite":
+            c = ops.truth_term(p, self.ev(n.args[0], f))
+            if c is True:
+                return self.ev(n.args[1], f)
+            if c is False:
+                return self.ev(n.args[2], f)
+            if not p.feasible(c):
+                return self.ev(n.args[2], f)
+            if not p.feasible(z3.Not(c)):
+                return self.ev(n.args[1], f)
+            return self.ite_value(c, self.ev(n.args[1], f), self.ev(n.args[2], f))
+        lo = self._conc_int(self.ev(n.args[0], f))
+        hi = self._conc_int(self.ev(n.args[1], f))
         lam = n.args[2]
         if not isinstance(lam, ast.Lambda) or len(lam.args.args) != 1:
             raise Unsupported("forall/exists needs a one-argument lambda")
@@ -1028,6 +1063,13 @@ class Interp:
         if name == "forall":
             return mk_bool(z3.ForAll([k], z3.Implies(rng, bool_term(body))))
         return mk_bool(z3.Exists([k], z3.And(rng, bool_term(body))))
+
+    def _conc_int(self, v: Any) -> Any:
+        """Concrete int if the path condition fixes the value, else the value itself."""
+        if not isinstance(v, SInt) or self.p.no_branch:
+            return v
+        c = self.p.fixed_value(v.t)
+        return v if c is None else c
 
     def call_value(self, fn: Any, args: list, kwargs: dict, n: Any, f: Frame) -> Any:
         from . import models
@@ -1126,12 +1168,22 @@ class Interp:
     def call_function(self, func: Any, args: list, kwargs: dict, n: Any, f: Frame,
                       defcls: Optional[type] = None) -> Any:
         """Call of a repository function: contract if it has one, else inline if marked transparent."""
+        if self.reg.qualname(func) in self.reg.concrete_ok and not ops.has_sym(args) and not ops.has_sym(kwargs):
+            return self._native(func, args, kwargs)
         con = self.reg.contract_for(func)
         if con is not None and not self.reg.is_under_inline(func):
             return self.reg.apply_contract(self, con, func, args, kwargs, f)
         if self.reg.may_inline(func):
             return self._inline(func, args, kwargs, defcls)
         raise Unsupported(f"call of {self.reg.qualname(func)} which has neither a contract nor an inline mark")
+
+    def _native(self, func: Any, args: list, kwargs: dict) -> Any:
+        """Native execution of a pure repository callable on concrete arguments (real code, real semantics)."""
+        self.inlined.add("native:" + self.reg.qualname(func))
+        try:
+            return func(*args, **kwargs)
+        except Exception as e:  # pylint: disable=broad-except
+            raise PyRaise(SExc(type(e), e.args))
 
     def _inline(self, func: Any, args: list, kwargs: dict, defcls: Optional[type]) -> Any:
         self.inlined.add(self.reg.qualname(func))
@@ -1155,6 +1207,13 @@ class Interp:
                     return cls(*args)
                 except ValueError as e:
                     raise PyRaise(SExc(ValueError, e.args))
+            key = f"{cls.__module__}:{cls.__qualname__}"
+            if key in self.reg.concrete_ok and not ops.has_sym(args) and not ops.has_sym(kwargs):
+                self.inlined.add("native:" + key)
+                try:
+                    return cls(*args, **kwargs)
+                except Exception as e:  # pylint: disable=broad-except
+                    raise PyRaise(SExc(type(e), e.args))
             obj = SObj(cls, {})
             init = _static_attr(cls, "__init__")
             if isinstance(init, types.FunctionType):
@@ -1239,17 +1298,7 @@ class SymRange:
         return z3.If(d > 0, (d + (-self.step - 1)) / (-self.step), 0)
 
     def conc_count(self, p: Path) -> Optional[int]:
-        c = z3.simplify(self.count_t())
-        if z3.is_int_value(c):
-            return c.as_long()
-        r = p._check()
-        if r != z3.sat:
-            return None
-        try:
-            v = p.solver.model().eval(self.count_t(), model_completion=True).as_long()
-        except Exception:  # pylint: disable=broad-except
-            return None
-        return v if p.entails(self.count_t() == v) else None
+        return p.fixed_value(self.count_t())
 
 
 class SuperProxy:
